@@ -464,6 +464,52 @@ fn c04_bounds(rep: &mut Rep) {
         }
         let ops = [(SetOperator::Union, "|"), (SetOperator::Intersection, "^")];
         let probes: Vec<i128> = (-2..=12).collect();
+        // per_visible_range_constraints: serial lists of 0..=2 integer-fragment constraints (elements and two-element set
+        // expressions), signed / unsigned start, with / without a marker after the element set
+        {
+            let mut cons: Vec<(Constraint, String, Box<dyn Fn(i128) -> bool>, bool, bool)> = vec![];   // (constraint, text, value set, operand marker, any marker)
+            for (e, te) in leaves.iter().step_by(2) { for outer in [false, true] {
+                let e2 = e.clone();
+                cons.push((Constraint::Subtype(ElementSetSpecs { set: ElementOrSetOperation::Element(e.clone()), extensible: outer }), format!("({te}{})", if outer { ", ..." } else { "" }),
+                    Box::new(move |v| permits(&e2, v)), ext(e), ext(e) || outer));
+            } }
+            for (a, ta) in leaves.iter().step_by(5) { for (b, tb) in leaves.iter().step_by(7) { for (op, t) in &ops {
+                let (a2, b2, union) = (a.clone(), b.clone(), *t == "|");
+                let set = SetOperation { base: a.clone(), operator: op.clone(), operant: Box::new(ElementOrSetOperation::Element(b.clone())) };
+                cons.push((Constraint::Subtype(ElementSetSpecs { set: ElementOrSetOperation::SetOperation(set), extensible: false }), format!("({ta} {t} {tb})"),
+                    Box::new(move |v| if union { permits(&a2, v) || permits(&b2, v) } else { permits(&a2, v) && permits(&b2, v) }), ext(a) || ext(b), ext(a) || ext(b)));
+            } } }
+            let names = ["C04.per_visible_range_constraints.never_excludes_a_value_all_constraints_permit", "C04.per_visible_range_constraints.range_so_far_contains_every_value_permitted_so_far"];
+            let mut lists: Vec<Vec<usize>> = vec![vec![]];
+            for i in 0..cons.len() { lists.push(vec![i]); }
+            for i in (0..cons.len()).step_by(3) { for j in (0..cons.len()).step_by(4) { lists.push(vec![i, j]); } }
+            for l in &lists { for signed in [false, true] {
+                let list: Vec<Constraint> = l.iter().map(|i| cons[*i].0.clone()).collect();
+                let d = || format!("signed={signed} INTEGER {}", l.iter().map(|i| cons[*i].1.clone()).collect::<Vec<_>>().join(""));
+                let r = per_visible_range_constraints(signed, &list);
+                // each single constraint as range_from_constraint sees it
+                if l.len() == 1 {
+                    if let Ok((mn, mx, _, sz)) = rasn_compiler::verif_hooks::hook_range_from_constraint(&list[0]) {
+                        rep.check("C04.range_from_constraint.contains_every_value_the_constraint_permits", probes.iter().all(|v| !(cons[l[0]].2)(*v) || (mn.map_or(true, |m| m <= *v) && mx.map_or(true, |m| *v <= m))), d);
+                        rep.check("C04.range_from_constraint.a_value_constraint_is_not_a_size_bound", !sz, d);
+                    }
+                }
+                if let Ok(k) = &r {
+                    let (mn, mx) = (k.min::<i128>(), k.max::<i128>());
+                    let ok = probes.iter().all(|v| !((signed || *v >= 0) && l.iter().all(|i| (cons[*i].2)(*v))) || (mn.map_or(true, |m| m <= *v) && mx.map_or(true, |m| *v <= m)));
+                    for n in names { rep.check(n, ok, || format!("{} -> {mn:?}..{mx:?}", d())); }
+                    rep.check("C04.per_visible_range_constraints.extensible_only_if_a_marker_is_written", !k.is_extensible() || l.iter().any(|i| cons[*i].4), d);
+                    rep.check("C04.per_visible_range_constraints.extensible_so_far_only_if_a_marker_was_seen", !k.is_extensible() || l.iter().any(|i| cons[*i].4), d);
+                    rep.check("C04.per_visible_range_constraints.operand_marker_makes_it_extensible", k.is_extensible() || !l.iter().any(|i| cons[*i].3), d);
+                    rep.check("C04.per_visible_range_constraints.operand_marker_seen_so_far_makes_it_extensible", k.is_extensible() || !l.iter().any(|i| cons[*i].3), d);
+                    rep.check("C04.per_visible_range_constraints.value_constraints_are_not_size_bounds", !k.is_size_constraint(), d);
+                    if l.is_empty() {
+                        rep.check("C04.per_visible_range_constraints.empty_list_is_the_start_value", mx.is_none() && !k.is_extensible() && mn == if signed { None } else { Some(0) }, d);
+                    }
+                    rep.check("C04.per_visible_range_constraints.safety", true, d);
+                }
+            } }
+        }
         for (a, ta) in &leaves { for (op1, t1) in &ops { for (b, tb) in &leaves {
             // two elements
             let set = SetOperation { base: a.clone(), operator: op1.clone(), operant: Box::new(ElementOrSetOperation::Element(b.clone())) };
